@@ -15,6 +15,8 @@ import SxVerif.Generated.Constants
 import SxVerif.Generated.Problems
 import SxVerif.Generated.Wiring
 import SxVerif.Generated.Limiter
+import SxVerif.Generated.Blocking
+import SxVerif.Spec.Blocking
 
 namespace SxVerif.C12
 open SxVerif.Engine SxVerif.Generated SxVerif.StageDesc
@@ -35,6 +37,22 @@ theorem capture_source_safe_against_close : readSafeAgainstClose = true := by de
     worker slept out its slot, one after the other: D28; dynamic side: the slow-rate cases of `e2esigint`.) -/
 theorem rate_limited_probe_interruptible :
     SxVerif.Limiter.takeInterruptible SxVerif.Generated.Limiter.scanWrapper "Scan" = true := by decide
+
+/-- (T) nothing in the tree can block a goroutine without the cancellation argument knowing about it: the unguarded
+    part of the regenerated inventory of blocking operations (channel sends / receives / ranges outside a select
+    with a `ctx.Done()` or `default` case, Take / Sleep / Wait / Lock calls, every `go` statement — of EVERY non-test
+    file of sx) is exactly the hand-classified table `Blocking.accounted`.  A goroutine, an unguarded send, a sleep or
+    a limiter call added anywhere breaks this theorem until it has been classified. -/
+theorem blocking_ops_accounted :
+    SxVerif.Blocking.needsAccount SxVerif.Generated.blockingOps = SxVerif.Blocking.accounted.map (·.1) := by decide
+
+/-- nothing in the table is there for no reason: the only operations classified as possibly blocking after a
+    cancellation (`abandoned`) stand in the packet sender, its rate-limit wrapper and the ARP-cache stage, which the
+    return path does not wait for -/
+theorem abandoned_only_on_send_path :
+    ∀ p ∈ SxVerif.Blocking.accounted, p.2 = .abandoned →
+      p.1.fn = "sender.SendPackets" ∨ p.1.fn = "rateLimitReadWriter.WritePacketData" ∨
+      p.1.fn = "cacheReqGenerator.GenerateRequests" := by decide
 
 /-- (T) the side conditions of the generic theorems, decided on the regenerated stage descriptors:
     `SingleCloser`, `CloseAfterSenders`, `GuardedOnReturnPath`, the guards the transition system
